@@ -397,7 +397,7 @@ func cmdCheck(id string, args []string) int {
 		if !k.Fixed && !seenKnown[k.ID] {
 			applicable := false
 			for _, r := range results {
-				if k.Harness == "" || k.Harness == r.Cfg.Fn {
+				if k.Harness == "" || globMatch(k.Harness, r.Cfg.Fn) {
 					applicable = true
 				}
 			}
